@@ -180,6 +180,23 @@ func TestVerifC11Amp(t *testing.T) {
 	rng := r.Rng
 	b64 := base64.RawURLEncoding.EncodeToString
 
+	{
+		irng := rand.New(rand.NewSource(r.Seed + 77))
+		var cs []string
+		for i := 0; i < r.N(300, 3000); i++ {
+			d := make([]byte, irng.Intn(120))
+			irng.Read(d)
+			cs = append(cs, string(d))
+		}
+		r.Independent("path", "EncodePath / DecodePath", cs, func(c string) string {
+			p := EncodePath([]byte(c))
+			slash := strings.IndexByte(p, '/')
+			d, err := DecodePath(p)
+			runtime.Gosched()
+			return fmt.Sprintf("data part %s | decoded %s %v", p[slash+1:], vh.Hex(d), err != nil)
+		})
+	}
+
 	// ---------------------------------------------------------------- 0. decoded polls are values of their own
 	// a decoded poll stays what it was while later polls are decoded (the broker handles many at once), in
 	// sequence and from concurrent goroutines
